@@ -364,7 +364,7 @@ def main():
         else:
             plan = P.plan(tier, seed, searching)
         for i, step in enumerate(plan):
-            tagfile = BUILD / "run" / ("%s-%s-%d-%d.cases" % (pid, tier, seed, i))
+            tagfile = BUILD / "run" / ("%s-%s-%d-%d-%d.cases" % (pid, tier, seed, i, os.getpid()))
             r = run_stream(exe, P.DRIVER_MODE, step["hargs"], step.get("dargs", []),
                            step.get("timeout", 3000), tagfile)
             cases, open_case = split_cases(r["text"])
